@@ -1242,7 +1242,7 @@ def build_jobs(ctx, search=False):
     max_m = ctx.scale(5, 7)
     cfgs = configs(max_m)
     jobs = []
-    nprog = ctx.scale(300, 2600) * (2 if search else 1)
+    nprog = ctx.scale(200, 2600) * (2 if search else 1)
     max_depth = ctx.scale(4, 7)
     for i in range(nprog):
         l = LS[i % len(LS)]
@@ -1255,19 +1255,24 @@ def build_jobs(ctx, search=False):
             cfg = cfgs[(i * (1 + 6 * j) + 3 * j) % len(cfgs)]
             if gcd_ops and cfg[0] > 3:
                 cfg = cfgs[(i + j) % 6]
-            runs.append((list(cfg), [rng.choice(SCHED_MODES), rng.choice(CHUNKS)]))
+            chunk = rng.choice(CHUNKS)
+            if chunk == 'bytes' and cfg[0] > 3 and not ctx.thorough:
+                chunk = 'mixed'          # byte-wise delivery at m >= 4 is slow: thorough tier only
+            runs.append((list(cfg), [rng.choice(SCHED_MODES), chunk]))
         jobs.append({'type': 'prog', 'key': f'p{i}', 'seed': ctx.seed + (7919 if search else 0), 'l': l, 'depth': depth,
                      'in_range': rng.random() < 0.9, 'gcd_ops': gcd_ops, 'runs': runs})
     ucfgs = cfgs if not search else cfgs[:8]
     for uj in unit_jobs(ctx, ucfgs):
         jobs.append({'type': 'unit', 'job': uj})
     for ci, cfg in enumerate(cfgs):
-        for l in ([LS[ci % 5], LS[(ci + 2) % 5]] if not ctx.thorough else LS):
+        for l in ([LS[ci % 5]] if not ctx.thorough else LS):
             jobs.append({'type': 'struct', 'cfg': list(cfg), 'l': l, 'seed': rng.randrange(1 << 30),
-                         'sched': rng.choice(SCHED_MODES), 'chunk': rng.choice(CHUNKS)})
+                         'sched': rng.choice(SCHED_MODES), 'chunk': rng.choice(CHUNKS[:3] if cfg[0] > 3 else CHUNKS)})
     # gcd family: exhaustive on m = 1
     for l in ([2, 3, 4, 5] if not ctx.thorough else [1, 2, 3, 4, 5, 6]):
         allp = [(a, b) for a in range(-(1 << (l - 1)), 1 << (l - 1)) for b in range(-(1 << (l - 1)), 1 << (l - 1))]
+        if l == 5 and not ctx.thorough:       # quick: exhaustive for l <= 4, a sample of 96 pairs for l = 5
+            allp = rng.sample(allp, 96)
         step = 24
         for s in range(0, len(allp), step):
             jobs.append({'type': 'gcd', 'cfg': [1, 0, bool((s // step) % 2)], 'l': l, 'pairs': allp[s:s + step], 'seed': rng.randrange(1 << 30)})
